@@ -43,26 +43,27 @@ Take(o, n) ==          \* the first n bytes of a descriptor sequence (chunk[..n]
 (* stream word number of results[i] of the current block (0-based i) *)
 WordNo(b, i) == (b - 1) * BufLen + i
 
+(* Every public call is a pure function of the abstract state s = [idx, half, blk] returning   *)
+(* the new state and the output descriptors, [idx, half, blk, out]; the actions below apply it. *)
+(* (Modules CloneEq / Instances reuse these functions for several instances.)                   *)
+R(i, h, b, o) == [idx |-> i, half |-> h, blk |-> b, out |-> o]
+
 (* ------------------------------------------------------------------ *)
 (* BlockRng<R: Item = u32>                                             *)
 (* ------------------------------------------------------------------ *)
-B32NextU32 ==
-  LET gen == idx >= BufLen                        \* generate_and_set(0)
-      b   == IF gen THEN blk + 1 ELSE blk
-      i   == IF gen THEN 0 ELSE idx
-  IN /\ out' = Bytes(0, WordNo(b, i), 0, 3)
-     /\ idx' = i + 1 /\ blk' = b /\ UNCHANGED half
+B32U32(s) ==
+  LET gen == s.idx >= BufLen                   \* generate_and_set(0)
+      b   == IF gen THEN s.blk + 1 ELSE s.blk
+      i   == IF gen THEN 0 ELSE s.idx
+  IN R(i + 1, s.half, b, Bytes(0, WordNo(b, i), 0, 3))
 
-B32NextU64 ==
-  IF idx < BufLen - 1 THEN                        \* both words in the buffer
-       /\ out' = Bytes(0, WordNo(blk, idx), 0, 3) \o Bytes(0, WordNo(blk, idx + 1), 0, 3)
-       /\ idx' = idx + 2 /\ UNCHANGED <<blk, half>>
-  ELSE IF idx >= BufLen THEN                      \* generate_and_set(2); read_u64(results, 0)
-       /\ out' = Bytes(0, WordNo(blk + 1, 0), 0, 3) \o Bytes(0, WordNo(blk + 1, 1), 0, 3)
-       /\ idx' = 2 /\ blk' = blk + 1 /\ UNCHANGED half
+B32U64(s) ==
+  IF s.idx < BufLen - 1 THEN                   \* both words in the buffer
+       R(s.idx + 2, s.half, s.blk, Bytes(0, WordNo(s.blk, s.idx), 0, 3) \o Bytes(0, WordNo(s.blk, s.idx + 1), 0, 3))
+  ELSE IF s.idx >= BufLen THEN                 \* generate_and_set(2); read_u64(results, 0)
+       R(2, s.half, s.blk + 1, Bytes(0, WordNo(s.blk + 1, 0), 0, 3) \o Bytes(0, WordNo(s.blk + 1, 1), 0, 3))
   ELSE                                         \* x = results[len-1]; generate_and_set(1); y = results[0]
-       /\ out' = Bytes(0, WordNo(blk, BufLen - 1), 0, 3) \o Bytes(0, WordNo(blk + 1, 0), 0, 3)
-       /\ idx' = 1 /\ blk' = blk + 1 /\ UNCHANGED half
+       R(1, s.half, s.blk + 1, Bytes(0, WordNo(s.blk, BufLen - 1), 0, 3) \o Bytes(0, WordNo(s.blk + 1, 0), 0, 3))
 
 (* fill_via_chunks(src = results[i..], dest of `left` bytes): <<consumed words, filled bytes>> *)
 Chunks(i, left, wb) ==
@@ -72,7 +73,7 @@ Chunks(i, left, wb) ==
   IN IF full < avail /\ rem > 0 /\ rem < wb THEN <<full + 1, full * wb + rem>>
      ELSE <<full, full * wb>>
 
-(* the while loop of fill_bytes, for word size wb; acc = <<i, b, read_len, out>> *)
+(* the while loop of fill_bytes, for word size wb *)
 RECURSIVE FillLoop(_, _, _, _, _, _)
 FillLoop(i, b, rd, n, o, wb) ==
   IF rd >= n THEN <<i, b, o>>
@@ -86,37 +87,29 @@ FillLoop(i, b, rd, n, o, wb) ==
                             IF j * wb <= c[2] THEN wb - 1 ELSE (c[2] - (j - 1) * wb) - 1>>])
        IN FillLoop(i2 + c[1], b2, rd + c[2], n, o2, wb)
 
-B32Fill(n) ==
-  LET r == FillLoop(idx, blk, 0, n, <<>>, 4)
-  IN /\ idx' = r[1] /\ blk' = r[2] /\ out' = r[3] /\ UNCHANGED half
+B32Fill(s, n) == LET r == FillLoop(s.idx, s.blk, 0, n, <<>>, 4) IN R(r[1], s.half, r[2], r[3])
 
 (* ------------------------------------------------------------------ *)
 (* BlockRng64<R: Item = u64>                                           *)
 (* ------------------------------------------------------------------ *)
-B64NextU32 ==
-  LET index0 == idx - (IF half THEN 1 ELSE 0)
+B64U32(s) ==
+  LET index0 == s.idx - (IF s.half THEN 1 ELSE 0)
       gen    == index0 >= BufLen
-      b      == IF gen THEN blk + 1 ELSE blk
+      b      == IF gen THEN s.blk + 1 ELSE s.blk
       index  == IF gen THEN 0 ELSE index0
-      i1     == IF gen THEN 0 ELSE idx          \* self.index after the refill branch
-      h1     == IF gen THEN FALSE ELSE half
+      i1     == IF gen THEN 0 ELSE s.idx        \* self.index after the refill branch
+      h1     == IF gen THEN FALSE ELSE s.half
       lo     == IF h1 THEN 4 ELSE 0             \* shift = 32 * half_used
       h2     == ~h1
-  IN /\ out' = Bytes(0, WordNo(b, index), lo, lo + 3)
-     /\ half' = h2
-     /\ idx' = i1 + (IF h2 THEN 1 ELSE 0)
-     /\ blk' = b
+  IN R(i1 + (IF h2 THEN 1 ELSE 0), h2, b, Bytes(0, WordNo(b, index), lo, lo + 3))
 
-B64NextU64 ==
-  LET gen == idx >= BufLen
-      b   == IF gen THEN blk + 1 ELSE blk
-      i   == IF gen THEN 0 ELSE idx
-  IN /\ out' = Bytes(0, WordNo(b, i), 0, 7)
-     /\ idx' = i + 1 /\ blk' = b /\ half' = FALSE
+B64U64(s) ==
+  LET gen == s.idx >= BufLen
+      b   == IF gen THEN s.blk + 1 ELSE s.blk
+      i   == IF gen THEN 0 ELSE s.idx
+  IN R(i + 1, FALSE, b, Bytes(0, WordNo(b, i), 0, 7))
 
-B64Fill(n) ==
-  LET r == FillLoop(idx, blk, 0, n, <<>>, 8)
-  IN /\ idx' = r[1] /\ blk' = r[2] /\ out' = r[3] /\ half' = FALSE
+B64Fill(s, n) == LET r == FillLoop(s.idx, s.blk, 0, n, <<>>, 8) IN R(r[1], FALSE, r[2], r[3])
 
 (* ------------------------------------------------------------------ *)
 (* via-next generators: blk counts native steps; idx is unused (0)     *)
@@ -143,19 +136,22 @@ ViaLoop(c, h, left, o) ==
   ELSE IF left > 4 THEN LET r == VNat64(c, h) IN [o |-> o \o Take(r.o, left), c |-> r.c, h |-> r.h]
   ELSE IF left > 0 THEN LET r == VNat32(c, h) IN [o |-> o \o Take(r.o, left), c |-> r.c, h |-> r.h]
   ELSE [o |-> o, c |-> c, h |-> h]
-
-VApply(r) == /\ out' = r.o /\ blk' = r.c /\ half' = r.h /\ UNCHANGED idx
-VNextU32 == VApply(VNat32(blk, half))
-VNextU64 == VApply(VNat64(blk, half))
-VFill(n) == VApply(ViaLoop(blk, half, n, <<>>))
+VR(s, r) == R(s.idx, r.h, r.c, r.o)
 
 (* ------------------------------------------------------------------ *)
-NextU32 == CASE Mode = "blk32" -> B32NextU32 [] Mode = "blk64" -> B64NextU32 [] OTHER -> VNextU32
-NextU64 == CASE Mode = "blk32" -> B32NextU64 [] Mode = "blk64" -> B64NextU64 [] OTHER -> VNextU64
-FillBytes(n) == CASE Mode = "blk32" -> B32Fill(n) [] Mode = "blk64" -> B64Fill(n) [] OTHER -> VFill(n)
+StepU32(s) == CASE Mode = "blk32" -> B32U32(s) [] Mode = "blk64" -> B64U32(s) [] OTHER -> VR(s, VNat32(s.blk, s.half))
+StepU64(s) == CASE Mode = "blk32" -> B32U64(s) [] Mode = "blk64" -> B64U64(s) [] OTHER -> VR(s, VNat64(s.blk, s.half))
+StepFill(s, n) == CASE Mode = "blk32" -> B32Fill(s, n) [] Mode = "blk64" -> B64Fill(s, n)
+                    [] OTHER -> VR(s, ViaLoop(s.blk, s.half, n, <<>>))
+InitState == [idx |-> IF Mode = "via" THEN 0 ELSE BufLen, half |-> FALSE, blk |-> 0]    \* BlockRng::new: index = results.len()
 
-Init == /\ idx = (IF Mode = "via" THEN 0 ELSE BufLen)     \* BlockRng::new: index = results.len()
-        /\ half = FALSE /\ blk = 0 /\ out = <<>>
+Cur == [idx |-> idx, half |-> half, blk |-> blk]
+Apply(r) == idx' = r.idx /\ half' = r.half /\ blk' = r.blk /\ out' = r.out
+NextU32 == Apply(StepU32(Cur))
+NextU64 == Apply(StepU64(Cur))
+FillBytes(n) == Apply(StepFill(Cur, n))
+
+Init == idx = InitState.idx /\ half = InitState.half /\ blk = InitState.blk /\ out = <<>>
 Next == NextU32 \/ NextU64 \/ \E n \in Fills : FillBytes(n)
 Spec == Init /\ [][Next]_vars
 
